@@ -1,0 +1,19 @@
+//go:build verif
+
+package kadm
+
+import "github.com/twmb/franz-go/pkg/kmsg"
+
+// This file exists only under the `verif` build tag. It exports constructors
+// for types with unexported fields so that the external model-based
+// verification harness can build inputs; it changes no behaviour.
+
+// VerifConsumerAssignment wraps a consumer assignment as a GroupMemberAssignment.
+func VerifConsumerAssignment(a *kmsg.ConsumerMemberAssignment) GroupMemberAssignment {
+	return GroupMemberAssignment{i: a}
+}
+
+// VerifConsumerMetadata wraps consumer join metadata as a GroupMemberMetadata.
+func VerifConsumerMetadata(m *kmsg.ConsumerMemberMetadata) GroupMemberMetadata {
+	return GroupMemberMetadata{i: m}
+}
